@@ -256,7 +256,7 @@ def run(ctx):
         return
     quick = ctx.tier == "quick"
     profiles = ["dev"] if quick else ["dev", "release"]
-    n_strings, forms, n_std = (70, 3, 1500) if quick else (700, 5, 20000)
+    n_strings, forms, n_std = (70, 3, 1500) if quick else (1200, 5, 40000)
     total, distinct = 0, set()
     dist = {"width_classes": {1: 0, 2: 0, 3: 0, 4: 0}, "forms": {}, "index_forms": {}, "scope": {}, "string_chars": {},
             "strings_mixing_widths": 0, "foreach_opcode": {"StringForLoop": 0, "VecForLoop": 0}, "std_cases": 0, "program_runs": 0}
